@@ -20,8 +20,6 @@ a missing loop level): every dynamic evaluation of every branch condition in
 every iteration vector has its own independent truth value.  A backward GOTO
 first clears its own condition element so that every program terminates.
 """
-import itertools
-
 QMAX = 4          # conditions per program (first extent of c)
 NMAX = 3          # largest trip count (other extents of c)
 AMAX = 8          # size of a
@@ -483,46 +481,6 @@ def range_key(rng):
     path, start, stop = rng
     pre = "".join(f"{p}{'b' if s == 1 else 'e'}." for p, s in path)
     return f"{pre}{start}-{stop}"
-
-
-def seq_at(prog, path):
-    seq = prog
-    for pos, slot in path:
-        seq = seq[pos][slot]
-    return seq
-
-
-def escapes(prog, rng):
-    """Kinds of control transfer inside the range that can leave it (or enter
-    it) other than through its first/last statement: used for SIGNATURES and
-    statistics only, never for the verdict.  'exit'/'cycle': the statement's
-    loop is outside the range; 'return'; 'goto-out': GOTO inside, label
-    outside; 'goto-in': label inside, GOTO outside."""
-    path, start, stop = rng
-    seq = seq_at(prog, path)[start:stop]
-    found = set()
-
-    def rec(sub, loops):
-        for st in sub:
-            if st[0] == "L":
-                rec(st[1], loops + 1)
-            elif st[0] == "I":
-                rec(st[1], loops)
-                rec(st[2], loops)
-            elif st[0] == "X" and loops == 0:
-                found.add("exit")
-            elif st[0] == "Y" and loops == 0:
-                found.add("cycle")
-            elif st[0] == "R":
-                found.add("return")
-    rec(seq, 0)
-    inside = kinds(seq)
-    allk = kinds(prog)
-    if "G" in inside and "T" not in inside:
-        found.add("goto-out")
-    if "T" in inside and "G" not in inside and "G" in allk:
-        found.add("goto-in")
-    return sorted(found)
 
 
 def bypasses(prog, rng, nval, bits):
